@@ -13,7 +13,8 @@ TIERS = {
     "quick": {"runs": 3000, "max_wall": 240, "minimise_s": 25, "chunk": 50},
     "thorough": {"runs": 100000, "max_wall": 3000, "minimise_s": 60, "chunk": 200},
 }
-FAULT_KINDS = ["save tick position", "clean stop/restart", "id space jump by presentation", "id request handled while a scheduled save is being written (pre-emptive schedule)"]
+FAULT_KINDS = ["save tick position", "clean stop/restart", "id space jump by presentation", "id request handled while a scheduled save is being written (pre-emptive schedule)",
+               "transient read error at start-up (retried)", "restart immediately after stop() returned (no settling)", "top of the id space (251..254)"]
 REAL, STUBS, ASSUMPTIONS = netcheck.REAL, netcheck.STUBS, netcheck.ASSUMPTIONS
 REQUIRED_PROBES = ["ids_handed_out", "restarts_with_persistence", "id_space_exhausted"]
 WEIGHTS = {"idreq": 22, "adopt": 6, "present_node": 10, "present_child": 4, "value": 5, "advance": 10, "restart": 5,
